@@ -11,6 +11,9 @@ VERIF = build.VERIF
 HERE = os.path.join(VERIF, "apisim")
 PROP = "C17"
 ENV = {"UBSAN_OPTIONS": "exitcode=78:print_stacktrace=0:silence_unsigned_overflow=1"}
+TWIN = None
+ENV_A = dict(ENV, ASAN_OPTIONS="malloc_fill_byte=190:max_malloc_fill_size=65536")
+ENV_Z = dict(ENV, ASAN_OPTIONS="malloc_fill_byte=0:max_malloc_fill_size=65536")
 
 
 def build_engine():
@@ -24,6 +27,9 @@ def build_engine():
         open(inc, "wb").write(out)
     flags = [f for f in build.VARIANTS["asan"] if not f.startswith("-finstrument")] + build.INCLUDES + ["-I", gen]
     eo = build.compile_cached(os.path.join(HERE, "apisim.cpp"), flags)
+    # twin build: uninitialised automatic variables are zero instead of a garbage pattern (see common/build.py)
+    global TWIN
+    TWIN = build.link([eo] + build.lib_objects("asanz"), os.path.join(build.BUILD, "bin", "apisim_z"), ["-fsanitize=address,undefined"])
     return build.link([eo] + objs, os.path.join(build.BUILD, "bin", "apisim"), ["-fsanitize=address,undefined"])
 
 
@@ -34,9 +40,15 @@ def main(a):
     nw = a.workers or min(16, os.cpu_count() or 8)
 
     if a.replay:
-        r = orch.replay_file(binary, a.replay, ENV)
         import json
-        want = json.load(open(a.replay)).get("signature")
+        rep = json.load(open(a.replay))
+        if rep.get("engine") == "apisim-twin":
+            x = orch.exec_plan(binary, rep["ops"], ENV_A)
+            y = orch.exec_plan(TWIN, rep["ops"], ENV_Z)
+            r = {"sig": "uninitialised_value" if x["hash"] != y["hash"] else "OK", "detail": ["pattern build hash %s, zero build hash %s" % (x["hash"], y["hash"])]}
+        else:
+            r = orch.replay_file(binary, a.replay, ENV)
+        want = rep.get("signature")
         print("replay %s: expected %s, got %s" % (a.replay, want, r["sig"]))
         for d in r["detail"]:
             print("  " + d)
@@ -97,6 +109,23 @@ def main(a):
     if c1 != c0:
         harness_errors.append("candidate set differs between two executions of the first %d runs" % ngate)
 
+    # 3b. uninitialised-memory twins: the sweep and a sample of the histories again in two builds whose
+    # uninitialised stack and fresh heap contents differ (pattern vs. zero); every result of every call is in
+    # the event-log hash, so any difference means a value computed from uninitialised memory crossed the API
+    t1 = time.time()
+    twin = {"runs": 0, "differences": 0}
+    twin_cands = []
+    for kind, seed, count in (("SWEEP", 0, nsweep), ("RUNS", a.seed, 6000 if a.tier == "quick" else 200000)):
+        ra = orch.run_batch(binary, kind, seed, 0, count, nw, ENV_A, chunk=250, init_cmds=("HASHALL 1",))
+        rz = orch.run_batch(TWIN, kind, seed, 0, count, nw, ENV_Z, chunk=250, init_cmds=("HASHALL 1",))
+        for r, h in ra["hashes"].items():
+            if r in rz["hashes"]:
+                twin["runs"] += 1
+                if rz["hashes"][r] != h:
+                    twin["differences"] += 1
+                    twin_cands.append({"run": r, "kind": "sweep" if kind == "SWEEP" else "random", "seed": seed})
+    t_twin = time.time() - t1
+
     # 4. candidates -> confirmed, minimised, replayable violations
     cands = []
     for c in sw["candidates"]:
@@ -113,6 +142,25 @@ def main(a):
 
     viol, known_hits, herr = orch.process_candidates(PROP, "apisim", binary, cands, get_plan, ENV)
     harness_errors += herr
+    for c in sorted(twin_cands, key=lambda x: x["run"])[:3]:
+        plan = get_plan(c)
+
+        def differs(ops):
+            x = orch.exec_plan(binary, ops, ENV_A)
+            y = orch.exec_plan(TWIN, ops, ENV_Z)
+            return x["hash"] != y["hash"] and "dead" not in (x["hash"], y["hash"])
+        if not (differs(plan) and differs(plan)):
+            harness_errors.append("twin difference of %s run %d did not reproduce" % (c["kind"], c["run"]))
+            continue
+        small, ncalls = orch.ddmin(plan, differs, budget=150)
+        rdir = os.path.join(orch.OUT, "replays", PROP)
+        os.makedirs(rdir, exist_ok=True)
+        path = os.path.join(rdir, "uninitialised_value-%s-run%d.json" % (c["kind"], c["run"]))
+        import json as _json
+        _json.dump({"property": PROP, "engine": "apisim-twin", "signature": "uninitialised_value", "run_index": c["run"], "kind": c["kind"], "seed": c["seed"], "ops": small,
+                    "original_length": len(plan), "trace": orch.exec_plan(binary, small, ENV_A)["trace"][-30:]}, open(path, "w"), indent=1)
+        viol.append({"sig": "uninitialised_value", "path": path, "ops": len(small), "from_ops": len(plan), "count": twin["differences"]})
+        break
 
     # 5. evidence
     stats = {}
@@ -160,6 +208,7 @@ def main(a):
                 "free(NULL)": sum(v for k, v in triples.items() if k.split("|")[0].endswith("_free") and (k.split("|")[1] in ("null", "none") or k.split("|")[2] == "null")),
             },
             "determinism_gate": {"runs_compared": compared, "hash_mismatches": len(mism)},
+            "uninitialised_memory_twins": dict(twin, what="sweep plans and a sample of the random histories executed in two builds whose uninitialised stack (-ftrivial-auto-var-init=pattern|zero) and fresh heap (ASan malloc_fill_byte) contents differ; event-log hashes (every call result) compared", wall_s=round(t_twin, 1)),
             "worker_deaths": sw["deaths"] + rnd["deaths"],
             "real_vs_stub": {"real": ["all of libgm2calc incl. every extern \"C\" wrapper (ASan+UBSan build of the working tree)", "libstdc++", "malloc (ASan)"],
                              "simulated": ["the C client(s): call order, arguments, buffers, handle lifetime", "std::cerr sink (captured)", "operator new/delete (counting shim)"],
